@@ -799,11 +799,11 @@ func stackMultiValues(c *mon.Ctx, r *mon.Rand, kinds map[string]bool) {
 			for i, id := range ids {
 				sc := root.Tagged(mon.CopyTags(id.tags))
 				sc.Counter(id.name).Inc(int64(1 + 10*i))
-				sc.Gauge(id.name + "_g").Update(float64(100*(k+1) + i))
-				sc.Timer(id.name + "_t").Record(time.Duration(1000*(k+1)+i) * time.Microsecond)
-				sc.Histogram(id.name+"_h", tally.ValueBuckets{10}).RecordValue(1)
+				sc.Gauge("g_" + id.name).Update(float64(100*(k+1) + i))
+				sc.Timer("t_" + id.name).Record(time.Duration(1000*(k+1)+i) * time.Microsecond)
+				sc.Histogram("h_"+id.name, tally.ValueBuckets{10}).RecordValue(1)
 				if i > 0 {
-					sc.Histogram(id.name+"_h", tally.ValueBuckets{10}).RecordValue(1)
+					sc.Histogram("h_"+id.name, tally.ValueBuckets{10}).RecordValue(1)
 				}
 			}
 			tally.VerifReportPass(root)
@@ -820,19 +820,19 @@ func stackMultiValues(c *mon.Ctx, r *mon.Rand, kinds map[string]bool) {
 			if got, want := agg[mon.IdentKey(id.name, id.tags)].Sum, int64(rounds*(1+10*i)); got != want {
 				bad("counter", fmt.Sprintf("child %d: counter %q %v received %d in total, %d was added", ci, id.name, id.tags, got, want))
 			}
-			if got, want := agg[mon.IdentKey(id.name+"_g", id.tags)].LastBits, math.Float64bits(float64(100*rounds+i)); got != want {
-				bad("gauge", fmt.Sprintf("child %d: gauge %q %v ends on %v, last update %v", ci, id.name+"_g", id.tags, math.Float64frombits(got), math.Float64frombits(want)))
+			if got, want := agg[mon.IdentKey("g_"+id.name, id.tags)].LastBits, math.Float64bits(float64(100*rounds+i)); got != want {
+				bad("gauge", fmt.Sprintf("child %d: gauge %q %v ends on %v, last update %v", ci, "g_"+id.name, id.tags, math.Float64frombits(got), math.Float64frombits(want)))
 			}
 			hw := int64(rounds)
 			if i > 0 {
 				hw *= 2
 			}
-			if got := agg[mon.BucketKeyV(id.name+"_h", id.tags, -math.MaxFloat64, 10)].Sum; got != hw {
-				bad("histogram", fmt.Sprintf("child %d: histogram %q %v bucket (-max,10] received %d samples, %d recorded", ci, id.name+"_h", id.tags, got, hw))
+			if got := agg[mon.BucketKeyV("h_"+id.name, id.tags, -math.MaxFloat64, 10)].Sum; got != hw {
+				bad("histogram", fmt.Sprintf("child %d: histogram %q %v bucket (-max,10] received %d samples, %d recorded", ci, "h_"+id.name, id.tags, got, hw))
 			}
 			var timers []int64
 			for _, ev := range log {
-				if ev.Kind == mon.EvTimer && ev.Name == id.name+"_t" && mon.TagsEqual(ev.Tags, id.tags) {
+				if ev.Kind == mon.EvTimer && ev.Name == "t_"+id.name && mon.TagsEqual(ev.Tags, id.tags) {
 					timers = append(timers, ev.I)
 				}
 			}
@@ -841,7 +841,7 @@ func stackMultiValues(c *mon.Ctx, r *mon.Rand, kinds map[string]bool) {
 				wantT = append(wantT, int64(time.Duration(1000*(k+1)+i)*time.Microsecond))
 			}
 			if fmt.Sprint(timers) != fmt.Sprint(wantT) {
-				bad("timer", fmt.Sprintf("child %d: timer %q %v received %v, recorded %v", ci, id.name+"_t", id.tags, timers, wantT))
+				bad("timer", fmt.Sprintf("child %d: timer %q %v received %v, recorded %v", ci, "t_"+id.name, id.tags, timers, wantT))
 			}
 		}
 	}
